@@ -112,14 +112,29 @@ func (v *View) checkC01(res *Result) {
 				res.Obs["c01.delete_on_vacant"]++
 				continue
 			}
+			// the Delete belongs to the shutdown in which it was ISSUED (it may be applied
+			// after a StopWithContext that ran into its time-out has already returned)
 			inStop := false
+			issue := m.Seq
+			if c := v.Calls[m.Call]; c != nil {
+				issue = c.Issue
+			}
 			for _, a := range v.APIs {
-				if a.Inst == m.By && a.API == "StopWithContext" && a.DelKey && a.Call < m.Seq && (a.Ret < 0 || a.Ret > m.Seq) {
+				if a.Inst == m.By && a.API == "StopWithContext" && a.DelKey && a.Call < issue && (a.Ret < 0 || a.Ret > issue) {
 					inStop = true
 				}
 			}
 			if pid != m.By || m.PrevBy != m.By {
-				res.viol("C01", "delete-foreign", "delete-foreign:"+fmt.Sprint(inStop),
+				// did the deleter read the record as its own just before (on the same goroutine)?
+				how := "blind"
+				for _, c := range v.CallsL {
+					if c.Inst == m.By && c.Op == "Get" && c.G == m.G && c.Apply >= 0 && c.Apply < m.Seq && c.Issue > m.Seq-400 {
+						if id, _, _ := DecodeIDToken([]byte(c.Val)); id == m.By && c.OK {
+							how = "after-own-read"
+						}
+					}
+				}
+				res.viol("C01", "delete-foreign", "delete-foreign:"+how+":in-shutdown="+fmt.Sprint(inStop),
 					fmt.Sprintf("%s deleted live record owned by %s (written by %s, token %s)", m.By, pid, m.PrevBy, ptok), m.Seq)
 				continue
 			}
